@@ -9,3 +9,4 @@ pub mod orch;
 pub mod parsers;
 pub mod rng;
 pub mod run;
+pub mod storage;
